@@ -1092,7 +1092,13 @@ pub fn step(cfg: &Cfg, sut: &mut Sut, m: &mut Model, pre: &Snapshot, op: Op, has
                     None => false,
                 }
             };
-            let blocked = ahead_live(&post.probation) || (m.ttl_dead(cfg, k) && ahead_live(&post.write_order));
+            // ... or was one ahead of it when the purge ran and has been evicted for size
+            // afterwards in the same maintenance run (the size eviction takes the front)?
+            let live_evicted_in_this_step = pre
+                .entries
+                .iter()
+                .any(|x| x.admitted && dead(x.key as u8).is_none() && m.keys[x.key as usize].has && !post_phys.contains_key(&(x.key as u8)));
+            let blocked = ahead_live(&post.probation) || (m.ttl_dead(cfg, k) && ahead_live(&post.write_order)) || live_evicted_in_this_step;
             let site = if same_reading {
                 "read-at-the-reading-of-invalidate_all"
             } else if !u && blocked {
